@@ -276,11 +276,16 @@ class GcodeHandlers(object):
         clockwise = (gcode == "G2")
         position = self.state.position
 
+        # In relative positioning mode (G91) the X/Y/Z words are offsets from the current position
+        relative = not position.X_AXIS.absoluteMode
+
         extruderPosition = None
         feedRate = None
-        x = position.X_AXIS.nativeToLogical()
-        y = position.Y_AXIS.nativeToLogical()
-        z = position.Z_AXIS.nativeToLogical()
+        startX = position.X_AXIS.nativeToLogical()
+        startY = position.Y_AXIS.nativeToLogical()
+        x = startX
+        y = startY
+        z = 0 if (relative) else position.Z_AXIS.nativeToLogical()
         radius = None
         i = 0
         j = 0
@@ -288,9 +293,9 @@ class GcodeHandlers(object):
         for label, value in self.gcodeParser.parse(cmd).parameterItems():
             if (value is not None):
                 if (label == "X"):
-                    x = value
+                    x = (startX + value) if (relative) else value
                 elif (label == "Y"):
-                    y = value
+                    y = (startY + value) if (relative) else value
                 elif (label == "Z"):
                     z = value
                 elif (label == "E"):
@@ -310,6 +315,15 @@ class GcodeHandlers(object):
 
         if (i or j):
             xyPairs = self.planArc(x, y, i, j, clockwise)
+            if (relative):
+                # The planned points are absolute, convert them to offsets from the prior point
+                (prevX, prevY) = (startX, startY)
+                for index in range(0, len(xyPairs), 2):
+                    (absX, absY) = (xyPairs[index], xyPairs[index + 1])
+                    xyPairs[index] = absX - prevX
+                    xyPairs[index + 1] = absY - prevY
+                    (prevX, prevY) = (absX, absY)
+
             return self.state.processLinearMoves(cmd, extruderPosition, feedRate, z, *xyPairs)
 
         return None
